@@ -104,6 +104,7 @@ type Noise struct {
 	Explicit        bool // explicit %N = / N: numbering
 	Comments        bool // comment lines and trailing comments
 	FullCallType    bool // full function type in calls
+	SplitAttrGroups bool // define attribute groups in two overlapping parts (LLVM merges repeated definitions)
 	Indent          string
 }
 
